@@ -179,21 +179,8 @@ where
     }
     // field-wise edits of every integer leaf of the proof
     let leaves = int_leaves(&zk_json);
-    let mut edits: Vec<(usize, u8)> = vec![];
-    for li in 0..leaves.len() {
-        for e in 0..4u8 {
-            edits.push((li, e));
-        }
-    }
-    let total = edits.len();
-    if c.leaf_edits != 0 && c.leaf_edits < total {
-        // sample without replacement, deterministically
-        for i in 0..c.leaf_edits {
-            let j = i + (splitmix(&mut st) as usize) % (total - i);
-            edits.swap(i, j);
-        }
-        edits.truncate(c.leaf_edits);
-    } else {
+    let edits = pick_edits(&leaves, c.leaf_edits, &mut st);
+    if c.leaf_edits == 0 || c.leaf_edits >= leaves.len() * 4 {
         rep.exhaustive("every integer leaf of an issuance proof x {+1, -1, 0, sibling swap}".into());
     }
     for (li, e) in edits {
